@@ -125,6 +125,10 @@ def gen_case(rng):
         rng.shuffle(order)
     listed = [listed[i] for i in order]
     ids = [ids[i] for i in order]
+    # the LAST row refers to its label by its own id while other rows do not
+    if n >= 2 and rng.random() < 0.2 and listed[-1][1] not in ids[:-1] and listed[-1][1] != 0:
+        ids[-1] = int(listed[-1][1])
+        scheme = scheme + "+last-identity"
     # forest edges over listed detections (forward in time)
     edges = []
     haspar = set()
@@ -325,10 +329,13 @@ def run_shard(spec):
         if not case.get("sorted_rows", True):
             acc["counters"]["cases-rows-not-grouped-by-time"] = \
                 acc["counters"].get("cases-rows-not-grouped-by-time", 0) + 1
-        if case["scheme"] == "dtype-max":
+        if case["scheme"].startswith("dtype-max"):
             acc["counters"]["cases-id-at-dtype-max"] = \
                 acc["counters"].get("cases-id-at-dtype-max", 0) + 1
-        if case["scheme"] in ("permute-labels", "equal-other-label"):
+        if case["scheme"].endswith("+last-identity"):
+            acc["counters"]["cases-last-row-identity"] = \
+                acc["counters"].get("cases-last-row-identity", 0) + 1
+        if case["scheme"].split("+")[0] in ("permute-labels", "equal-other-label"):
             acc["counters"]["cases-colliding-ids"] = \
                 acc["counters"].get("cases-colliding-ids", 0) + 1
         if not acc["samples"] and len(case["ids"]) >= 3:
